@@ -6,6 +6,7 @@ CONSTANTS
   DoublePars = {{}, {1}}
   CompletePars = {{2}}
   EmitLen = 30
+  RandomOps = TRUE
   EmitRare = {}
 INVARIANT InvCyclesComplete
 INVARIANT InvExponentBalance
